@@ -12,6 +12,7 @@
 #include <memory>
 #include <set>
 
+#include <sys/personality.h>
 #include <sys/wait.h>
 #include <unistd.h>
 
@@ -428,6 +429,103 @@ RunOut run_plan(const std::vector<std::string>& lines, uint64_t run_index)
    return out;
 }
 
+// ---------------------------------------------------------------------------------------------
+// One run = one fresh process.  The persistent worker only generates plans and spawns
+// `thrsim <progress> <manifest> --exec-one <planfile> [--trace]` for each of them, for seeded runs
+// and for replays alike, so that a run is a pure function of the plan text and the code: same
+// start-up allocations, same (cold) function-local statics, same heap layout (address space
+// randomisation is switched off for the child where the kernel allows it).
+// ---------------------------------------------------------------------------------------------
+int exec_one(const char* planfile, bool trace)
+{
+   const auto plan = sim::read_plan_file(planfile);
+   std::string mode = "?";
+   { const auto t = plan.empty() ? std::vector<std::string>() : sim::split(plan[0]); if (t.size() > 2 && t[0] == "#") mode = t[2]; }
+   RunOut o = run_plan(plan, g_prog.cell ? g_prog.cell[0] : 0);
+   sim::Stats c;
+   c.add("runs"); c.add("strategy_" + mode); c.add("ops", o.ops); c.add("events", o.sim.events); c.add("sequential_events", o.seq_events);
+   c.add("switches", o.sim.switches); c.add("preemptions_inside_operation", o.sim.preempt_in_op); c.add("conflict_switches", o.sim.conflict_switches);
+   c.add("shared_accesses", o.sim.shared_accesses); c.add("guard_acquires", o.sim.guard_acquires); c.add("guard_waits", o.sim.guard_waits);
+   c.add("mutex_locks", o.sim.mutex_locks); c.add("mutex_waits", o.sim.mutex_waits); c.add("atomic_ops", o.sim.atomic_ops); c.add("once_calls", o.sim.once_calls);
+   c.add("clock_reads", o.sim.clock_reads); c.add("random_reads", o.sim.random_reads);
+   c.add("tasks_" + std::to_string(o.ntasks));
+   if (o.discarded) c.add("discarded_unsupported_sync");
+   if (o.sim.preempt_in_op > 0 && o.ntasks >= 2) c.add("runs_with_preemption_inside_operation");
+   for (auto& kv : c.c) std::printf("K %s %" PRIu64 "\n", kv.first.c_str(), kv.second);
+   for (auto& kv : o.cover) std::printf("C %s %" PRIu64 "\n", kv.first.c_str(), kv.second);
+   std::printf("H %016" PRIx64 " %016" PRIx64 " %d\n", o.hash, o.sim.interleave_hash, (o.sim.preempt_in_op > 0 && o.ntasks >= 2) ? 1 : 0);
+   if (trace) {
+      if (!o.detail.empty()) std::printf("DETAIL %s\n", o.detail.c_str());
+      for (auto& rc : o.sim.races) {
+         std::printf("TRACE race: %s %s in [%s] (task %d op %d) vs %s in [%s] (task %d op %d)\n", rc.where.c_str(), rc.write_b ? "write" : "read", rc.fn_b.c_str(), rc.task_b, rc.op_b, rc.write_a ? "write" : "read", rc.fn_a.c_str(), rc.task_a, rc.op_a);
+         std::string st = "TRACE   stack of the later access:";
+         for (auto pc : rc.stack_b) st += " <- " + thrsim::symbolize(pc).substr(0, 80);
+         std::printf("%s\n", st.c_str());
+      }
+      std::string tr = "TRACE schedule (task:events) =";
+      for (size_t i = 0; i < o.sim.trace.size() && i < 400; ++i) tr += " " + std::to_string(o.sim.trace[i].first) + ":" + std::to_string(o.sim.trace[i].second);
+      if (o.sim.trace.size() > 400) tr += " ... (" + std::to_string(o.sim.trace.size()) + " segments)";
+      std::printf("%s\n", tr.c_str());
+      std::printf("TRACE events=%" PRIu64 " switches=%" PRIu64 " preempt_in_op=%" PRIu64 " trace_hash=%016" PRIx64 " tasks=%d\n", o.sim.events, o.sim.switches, o.sim.preempt_in_op, o.sim.trace_hash, o.ntasks);
+   }
+   std::printf("S %s\n", o.sig.empty() ? "OK" : o.sig.c_str());
+   std::fflush(stdout);
+   return 0;
+}
+
+struct ChildResult { std::string sig = "OK"; uint64_t hash = 0, ihash = 0; bool ih_flag = false; std::vector<std::string> passthrough; bool died = false; };
+
+ChildResult spawn_run(char** argv, const std::string& planfile, bool trace, uint64_t run_index, sim::Stats& st, std::map<std::string, uint64_t>& cover)
+{
+   ChildResult r;
+   int fd[2];
+   if (pipe(fd) != 0) { r.sig = "harness:pipe"; return r; }
+   g_prog.set(run_index, 0, "spawn");
+   std::fflush(stdout);
+   const pid_t pid = fork();
+   if (pid == 0) {
+      close(fd[0]);
+      dup2(fd[1], 1);
+      close(fd[1]);
+      personality(ADDR_NO_RANDOMIZE); // best effort
+      const char* args[8] = {argv[0], argv[1], argv[2], "--exec-one", planfile.c_str(), trace ? "--trace" : nullptr, nullptr, nullptr};
+      execv("/proc/self/exe", (char* const*)args);
+      _exit(127);
+   }
+   close(fd[1]);
+   std::string msg; char buf[8192]; ssize_t n;
+   while ((n = read(fd[0], buf, sizeof buf)) > 0) msg.append(buf, (size_t)n);
+   close(fd[0]);
+   int status = 0;
+   waitpid(pid, &status, 0);
+   bool have_sig = false;
+   size_t b0 = 0;
+   while (b0 < msg.size()) {
+      size_t e = msg.find('\n', b0); if (e == std::string::npos) e = msg.size();
+      const std::string l = msg.substr(b0, e - b0); b0 = e + 1;
+      if (l.size() < 3) continue;
+      if ((l[0] == 'K' || l[0] == 'C') && l[1] == ' ') {
+         const size_t sp = l.rfind(' ');
+         const std::string key = l.substr(2, sp - 2); const uint64_t v = std::strtoull(l.c_str() + sp + 1, nullptr, 10);
+         if (l[0] == 'K') st.add(key, v); else cover[key] += v;
+      } else if (l[0] == 'H' && l[1] == ' ') {
+         unsigned long long h1 = 0, h2 = 0; int flag = 0;
+         std::sscanf(l.c_str() + 2, "%llx %llx %d", &h1, &h2, &flag);
+         r.hash = h1; r.ihash = h2; r.ih_flag = flag != 0;
+      } else if (l[0] == 'S' && l[1] == ' ') { r.sig = l.substr(2); have_sig = true; }
+      else if (l.compare(0, 6, "TRACE ") == 0 || l.compare(0, 7, "DETAIL ") == 0) r.passthrough.push_back(l);
+   }
+   if (!(WIFEXITED(status) && WEXITSTATUS(status) == 0) || !have_sig) {
+      // same form as the parent's attribution of a dead worker: death:<phase>:<cause>
+      const std::string phase((const char*)(g_prog.cell + 4));
+      if (WIFSIGNALED(status)) r.sig = "death:" + phase + ":signal" + std::to_string(WTERMSIG(status));
+      else r.sig = "death:" + phase + ":exit" + std::to_string(WIFEXITED(status) ? WEXITSTATUS(status) : -1);
+      r.died = true;
+      st.add("runs");
+   }
+   return r;
+}
+
 } // namespace
 
 int main(int argc, char** argv)
@@ -440,8 +538,12 @@ int main(int argc, char** argv)
    struct NullBuf : std::streambuf { int_type overflow(int_type c) override { return traits_type::not_eof(c); } std::streamsize xsputn(const char*, std::streamsize n) override { return n; } };
    static NullBuf nullbuf;
    std::cerr.rdbuf(&nullbuf);
+   if (argc > 4 && std::string(argv[3]) == "--exec-one") return exec_one(argv[4], argc > 5 && std::string(argv[5]) == "--trace");
+   if (argc < 3) { std::fprintf(stderr, "usage: thrsim <progress file> <corpus manifest>\n"); return 2; }
+
    FILE* ihf = nullptr;
-   if (argc > 1 && argv[1][0]) ihf = std::fopen((std::string(argv[1]) + ".ih").c_str(), "wb");
+   std::string planfile = "/tmp/thrsim-plan-" + std::to_string(getpid()) + ".txt";
+   if (argv[1][0]) { ihf = std::fopen((std::string(argv[1]) + ".ih").c_str(), "wb"); planfile = std::string(argv[1]) + ".plan"; }
 
    std::string line;
    while (sim::read_line(line)) {
@@ -451,71 +553,12 @@ int main(int argc, char** argv)
          const uint64_t seed = std::strtoull(t[1].c_str(), nullptr, 0), first = std::strtoull(t[2].c_str(), nullptr, 0), count = std::strtoull(t[3].c_str(), nullptr, 0);
          sim::Stats st; std::map<std::string, uint64_t> cover;
          for (uint64_t i = first; i < first + count; ++i) {
-            // Every run executes in a child forked from this pristine process image, so that a run is a
-            // pure function of its seed and the code: function-local statics, lazily initialised caches
-            // and allocator state are the same at the start of every run and of every replay.
-            int fd[2];
-            if (pipe(fd) != 0) { std::printf("NOTE pipe failed\n"); break; }
-            std::fflush(stdout);
-            const pid_t pid = fork();
-            if (pid == 0) {
-               close(fd[0]);
-               std::string mode;
-               const auto plan = gen_plan(sim::run_seed(seed, ENGINE_ID, i), &mode);
-               RunOut o = run_plan(plan, i);
-               sim::Stats c;
-               c.add("runs"); c.add("strategy_" + mode); c.add("ops", o.ops); c.add("events", o.sim.events); c.add("sequential_events", o.seq_events);
-               c.add("switches", o.sim.switches); c.add("preemptions_inside_operation", o.sim.preempt_in_op); c.add("conflict_switches", o.sim.conflict_switches);
-               c.add("shared_accesses", o.sim.shared_accesses); c.add("guard_acquires", o.sim.guard_acquires); c.add("guard_waits", o.sim.guard_waits);
-               c.add("mutex_locks", o.sim.mutex_locks); c.add("mutex_waits", o.sim.mutex_waits); c.add("atomic_ops", o.sim.atomic_ops); c.add("once_calls", o.sim.once_calls);
-               c.add("clock_reads", o.sim.clock_reads); c.add("random_reads", o.sim.random_reads);
-               c.add("tasks_" + std::to_string(o.ntasks));
-               if (o.discarded) c.add("discarded_unsupported_sync");
-               if (o.sim.preempt_in_op > 0 && o.ntasks >= 2) c.add("runs_with_preemption_inside_operation");
-               std::string msg;
-               for (auto& kv : c.c) msg += "K " + kv.first + " " + std::to_string(kv.second) + "\n";
-               for (auto& kv : o.cover) msg += "C " + kv.first + " " + std::to_string(kv.second) + "\n";
-               char b[128];
-               std::snprintf(b, sizeof b, "H %016" PRIx64 " %016" PRIx64 " %d\n", o.hash, o.sim.interleave_hash, (o.sim.preempt_in_op > 0 && o.ntasks >= 2) ? 1 : 0);
-               msg += b;
-               if (!o.sig.empty()) msg += "S " + o.sig + "\n";
-               size_t off = 0;
-               while (off < msg.size()) { const ssize_t w = write(fd[1], msg.data() + off, msg.size() - off); if (w <= 0) break; off += (size_t)w; }
-               close(fd[1]);
-               _exit(0);
-            }
-            close(fd[1]);
-            std::string msg; char buf[4096]; ssize_t n;
-            while ((n = read(fd[0], buf, sizeof buf)) > 0) msg.append(buf, (size_t)n);
-            close(fd[0]);
-            int status = 0;
-            waitpid(pid, &status, 0);
-            std::string sig; uint64_t hash = 0;
-            size_t b0 = 0;
-            while (b0 < msg.size()) {
-               size_t e = msg.find('\n', b0); if (e == std::string::npos) e = msg.size();
-               const std::string l = msg.substr(b0, e - b0); b0 = e + 1;
-               if (l.size() < 3) continue;
-               if (l[0] == 'K' || l[0] == 'C') {
-                  const size_t sp = l.rfind(' ');
-                  const std::string key = l.substr(2, sp - 2); const uint64_t v = std::strtoull(l.c_str() + sp + 1, nullptr, 10);
-                  if (l[0] == 'K') st.add(key, v); else cover[key] += v;
-               } else if (l[0] == 'H') {
-                  unsigned long long h1 = 0, h2 = 0; int flag = 0;
-                  std::sscanf(l.c_str() + 2, "%llx %llx %d", &h1, &h2, &flag);
-                  hash = h1;
-                  if (flag && ihf) { const uint64_t v = h2; std::fwrite(&v, 8, 1, ihf); }
-               } else if (l[0] == 'S') sig = l.substr(2);
-            }
-            if (!(WIFEXITED(status) && WEXITSTATUS(status) == 0)) {
-               // same form as the parent's attribution of a dead worker: death:<phase>:<cause>
-               const std::string phase((const char*)(g_prog.cell + 4));
-               if (WIFSIGNALED(status)) sig = "death:" + phase + ":signal" + std::to_string(WTERMSIG(status));
-               else sig = "death:" + phase + ":exit" + std::to_string(WIFEXITED(status) ? WEXITSTATUS(status) : -1);
-               st.add("runs");
-            }
-            if (!sig.empty()) { std::printf("CAND run=%" PRIu64 " sig=%s\n", i, sig.c_str()); st.add("candidates"); }
-            if ((i & 15) == 0) std::printf("HASH run=%" PRIu64 " hash=%016" PRIx64 "\n", i, hash);
+            const auto plan = gen_plan(sim::run_seed(seed, ENGINE_ID, i), nullptr);
+            if (FILE* f = std::fopen(planfile.c_str(), "w")) { for (auto& l : plan) std::fprintf(f, "%s\n", l.c_str()); std::fclose(f); }
+            ChildResult r = spawn_run(argv, planfile, false, i, st, cover);
+            if (r.ih_flag && ihf) std::fwrite(&r.ihash, 8, 1, ihf);
+            if (r.sig != "OK") { std::printf("CAND run=%" PRIu64 " sig=%s\n", i, r.sig.c_str()); st.add("candidates"); }
+            if ((i & 15) == 0) std::printf("HASH run=%" PRIu64 " hash=%016" PRIx64 "\n", i, r.hash);
          }
          if (ihf) std::fflush(ihf);
          std::string cj = "{"; bool fst = true;
@@ -525,24 +568,15 @@ int main(int argc, char** argv)
       } else if (t[0] == "DUMP" && t.size() >= 3) {
          for (auto& l : gen_plan(sim::run_seed(std::strtoull(t[1].c_str(), nullptr, 0), ENGINE_ID, std::strtoull(t[2].c_str(), nullptr, 0)), nullptr)) std::printf("OP %s\n", l.c_str());
          std::printf("DONE\n");
-      } else if (t[0] == "EXEC") {
-         const auto plan = sim::read_plan_file(t[1].c_str());
-         RunOut o = run_plan(plan, 0);
-         if (!o.detail.empty()) std::printf("DETAIL %s\n", o.detail.c_str());
-         for (auto& rc : o.sim.races) {
-            std::printf("TRACE race: %s %s in [%s] (task %d op %d) vs %s in [%s] (task %d op %d)\n", rc.where.c_str(), rc.write_b ? "write" : "read", rc.fn_b.c_str(), rc.task_b, rc.op_b, rc.write_a ? "write" : "read", rc.fn_a.c_str(), rc.task_a, rc.op_a);
-            std::string st = "TRACE   stack of the later access:";
-            for (auto pc : rc.stack_b) st += " <- " + thrsim::symbolize(pc).substr(0, 80);
-            std::printf("%s\n", st.c_str());
-         }
-         std::string tr = "TRACE schedule (task:events) =";
-         for (size_t i = 0; i < o.sim.trace.size() && i < 400; ++i) tr += " " + std::to_string(o.sim.trace[i].first) + ":" + std::to_string(o.sim.trace[i].second);
-         if (o.sim.trace.size() > 400) tr += " ... (" + std::to_string(o.sim.trace.size()) + " segments)";
-         std::printf("%s\n", tr.c_str());
-         std::printf("TRACE events=%" PRIu64 " switches=%" PRIu64 " preempt_in_op=%" PRIu64 " trace_hash=%016" PRIx64 " tasks=%d\n", o.sim.events, o.sim.switches, o.sim.preempt_in_op, o.sim.trace_hash, o.ntasks);
-         std::printf("RESULT sig=%s hash=%016" PRIx64 " events=%" PRIu64 "\nDONE\n", o.sig.empty() ? "OK" : o.sig.c_str(), o.hash, o.sim.events);
+      } else if (t[0] == "EXEC" && t.size() >= 2) {
+         sim::Stats st; std::map<std::string, uint64_t> cover;
+         ChildResult r = spawn_run(argv, t[1], true, 0, st, cover);
+         for (auto& l : r.passthrough) std::printf("%s\n", l.c_str());
+         if (r.died) std::printf("DETAIL the run ended the process: %s\n", r.sig.c_str());
+         std::printf("RESULT sig=%s hash=%016" PRIx64 " events=%" PRIu64 "\nDONE\n", r.sig.c_str(), r.hash, st.c["events"]);
       } else if (t[0] == "QUIT") break;
    }
    if (ihf) std::fclose(ihf);
+   std::remove(planfile.c_str());
    return 0;
 }
